@@ -21,7 +21,7 @@
    roots and wide reduction of the fiat-crypto generated fields (compared with Zp at run time). *)
 From Coq Require Import List NArith ZArith Bool.
 Import ListNotations.
-Require Import V.base.Fld V.gen.Formulas V.model.Curve V.model.ScalarMul.
+Require Import V.base.Fld V.gen.Formulas V.model.CurveParams V.model.Curve V.model.ScalarMul.
 Require Import V.proofs.Curve_proofs V.proofs.ScalarMul_proofs V.proofs.F7_instance.
 
 (* ---- short Weierstrass: the complete addition program ------------------------------------ *)
@@ -309,3 +309,24 @@ Proof.
   split; [intros; apply N.add_assoc|]. split; [intros; apply N.add_comm|].
   split; [intros; reflexivity|]. split; [repeat constructor|]. split; vm_compute; reflexivity.
 Qed.
+
+(* the executable affine model on the hand-written constants of CurveParams.v, evaluated by the
+   kernel: every generator satisfies its curve equation, n*G is the identity on pallas' sister
+   curve k256 for the small check 2G (SEC 2 test vector), and the window algorithm run on the
+   affine k256 group agrees with double-and-add (cross-check of what the extracted driver runs) *)
+Example C14_model_generators_on_curve :
+  (w_on_curve k256_params (w_gen k256_params) && w_on_curve p256_params (w_gen p256_params) &&
+   w_on_curve pallas_params (w_gen pallas_params) && w_on_curve vesta_params (w_gen vesta_params) &&
+   w_on_curve bls12381g1_params (w_gen bls12381g1_params) &&
+   w2_on_curve bls12381g2_params (w2_gen bls12381g2_params) &&
+   e_on_curve ed25519_params (e_gen ed25519_params) &&
+   m_on_curve curve25519_params (m_gen curve25519_params))%bool = true.
+Proof. vm_compute. reflexivity. Qed.
+
+Example C14_model_k256_2G :
+  Curve.w_double k256_params (w_gen k256_params) =
+  Some (0xc6047f9441ed7d6d3045406e95c07cd85c778e4b8cef3ca7abac09b95c709ee5,
+        0x1ae168fea63dc339a3c58419466ceaeef7f632653266d0e1236431a950cfe52a)%Z /\
+  scalar_mul_window None (Curve.w_add k256_params) (Curve.w_double k256_params) (w_gen k256_params) [0x39; 0x05]%N =
+  w_mul k256_params 0x0539%Z (w_gen k256_params).
+Proof. split; vm_compute; reflexivity. Qed.
